@@ -8,10 +8,14 @@ use serde_json::{json, Value};
 pub const EXEMPT: f64 = 0.05;
 
 pub fn judge(ctx: &Ctx, l: &mut Local, p: &Params, site: Site, date: NaiveDate) {
+    judge_w(ctx, l, p, site, date, None)
+}
+/// `w`: weather supplied by the caller (whether an event occurs is geometry, not weather)
+pub fn judge_w(ctx: &Ctx, l: &mut Local, p: &Params, site: Site, date: NaiveDate, w: Option<(f64, f64)>) {
     use Prayer::*;
-    let r = pt(p, site.loc(), date, None);
+    let r = pt(p, site.loc(), date, w.map(|(a, b)| weather(a, b)));
     l.evals += 1;
-    let case = || PtCase::new(p, site, date);
+    let case = || PtCase::new(p, site, date).with_weather(w);
     let dec0 = refm::dec_local_midnight(date, site.gmt);
     let hmin = -90.0 + (site.lat + dec0).abs();
     let hmax = 90.0 - (site.lat - dec0).abs();
@@ -83,11 +87,55 @@ pub fn explore(ctx: &Ctx) {
     for (lat, lon, gmt) in [(55.0, 0.0, 9.0), (-64.0, 120.0, -4.0), (70.0, -60.0, 6.0), (-80.0, -150.0, 2.0)] {
         jobs.push((Site::new(lat, lon, 0.0, gmt), params_conv(Method::Mwl)));
     }
-    ctx.alphabet("sites_x_methods", json!({"far_zone_sites": 4, "jobs": jobs.len(), "lats": lats, "zones": zs, "methods": methods.iter().map(|m| format!("{:?}", m)).collect::<Vec<_>>()}));
+    for (i, s) in off_lattice_sites(false, 90.0).into_iter().enumerate() {
+        if !quick || s.lat.abs() > 45.0 {
+            jobs.push((s, params_conv(ANGLE6[i % 6])));
+        }
+    }
+    ctx.alphabet("sites_x_methods", json!({"off_lattice_sites": "all of common::off_lattice_sites (quick: those beyond 45 deg)", "far_zone_sites": 4, "jobs": jobs.len(), "lats": lats, "zones": zs, "methods": methods.iter().map(|m| format!("{:?}", m)).collect::<Vec<_>>()}));
     ctx.alphabet("dates", json!({"range": "1600-01-01..2399-12-31", "count": all.len()}));
     par_jobs(ctx, &jobs, |(site, p), l| {
         for &d in &all {
             judge(ctx, l, p, *site, d);
+        }
+    });
+    // custom angle triples (Fajr, Isha, Imsaak): the defining altitude follows the configured angles
+    let triples = [(18.0, 17.0, 0.5), (18.0, 17.0, 3.0), (15.0, 15.0, 4.0), (13.7, 17.2, 2.2), (9.0, 21.0, 1.0), (21.0, 9.0, 3.0)];
+    let mut jobs_c = vec![];
+    for &lat in &[45.0, 48.7, -48.7, 50.6, -50.6, 55.0, -55.0, 58.3, 60.0, -60.0, 64.0] {
+        for (i, &(fa, ia, im)) in triples.iter().enumerate() {
+            if quick && (i + (lat as f64).abs() as usize) % 2 != 0 {
+                continue;
+            }
+            let mut p = params_conv(Method::Mwl);
+            p.angles.insert(Prayer::Fajr, fa);
+            p.angles.insert(Prayer::Isha, ia);
+            p.angles.insert(Prayer::Imsaak, im);
+            jobs_c.push((Site::new(lat, 25.0, 0.0, 2.0), p));
+        }
+    }
+    let yc = dates_of_years(if quick { &[1687, 2023] } else { &YEARS6 });
+    ctx.alphabet("custom_angle_triples_fajr_isha_imsaak", json!({"triples": triples, "jobs": jobs_c.len(), "dates": yc.len()}));
+    par_jobs(ctx, &jobs_c, |(site, p), l| {
+        for &d in &yc {
+            judge(ctx, l, p, *site, d);
+        }
+    });
+    // weather supplied by the caller: validity must not depend on it (refraction models move a rise/set
+    // by seconds, they do not create or remove one outside the exempt band)
+    let ws: Vec<(f64, f64)> = if quick { vec![(1045.0, -60.0), (600.0, -30.0), (900.0, 30.0)] } else { vec![(1045.0, -60.0), (600.0, -30.0), (900.0, 30.0), (100.0, 57.0), (1050.0, -90.0), (1010.0, 14.0)] };
+    let mut jobs_w = vec![];
+    for &lat in &[60.0, 64.0, -64.0, 65.7, 66.56, -66.56, 67.4, 70.0, -70.0, 80.0, 89.5] {
+        for &w in &ws {
+            jobs_w.push((Site::new(lat, 25.0, 0.0, 2.0), w));
+        }
+    }
+    let yw = dates_of_years(if quick { &[2023] } else { &[1650, 2023, 2380] });
+    ctx.alphabet("caller_weather", json!({"pressure_temperature": ws, "jobs": jobs_w.len(), "dates": yw.len(), "method": "Mwl"}));
+    let pw = params_conv(Method::Mwl);
+    par_jobs(ctx, &jobs_w, |(site, w), l| {
+        for &d in &yw {
+            judge_w(ctx, l, &pw, *site, d, Some(*w));
         }
     });
 }
@@ -95,6 +143,6 @@ pub fn explore(ctx: &Ctx) {
 pub fn replay(ctx: &Ctx, _clause: &str, case: &Value) {
     let c: PtCase = serde_json::from_value(case.clone()).expect("case");
     let mut l = Local::default();
-    judge(ctx, &mut l, &c.params, c.site, c.date);
+    judge_w(ctx, &mut l, &c.params, c.site, c.date, c.weather);
     println!("  result: {}", fmt_r(&c.run()));
 }
